@@ -13,9 +13,10 @@
        leftmost child, cell_content_begin) = the implementation's pages;
      - the spec's results = the Rust reference's results (spec side of the theorem);
      - the executable known-finding predicates agree with the harness's mirrors;
-     - outside the known-finding classes: model results = spec results and the model's
-       full scan = the spec's list. *)
-From NDB Require Export Base.Bytes BTree.BTree BTree.Spec Corr.Common.
+     - outside the known-finding classes: model results = spec results, the model's full
+       scan = the spec's list, the final state satisfies the executable invariant
+       BTree/Inv.v wf_state and its in-order contents = the spec's list. *)
+From NDB Require Export Base.Bytes BTree.BTree BTree.Spec BTree.Inv Corr.Common.
 
 Definition keyspec := (bytes * N * N)%type.   (* head, fill byte, total length *)
 Definition expand (ks : keyspec) : key :=
@@ -113,6 +114,9 @@ Definition ok (c : case) : bool :=
   Bool.eqb dupc (impl_dup c) &&
   (if dupc || existsb res_failed rs then true
    else list_eqb res_eqb rs srs &&
+        (* the invariant of the intended refinement proof, and in-order contents = the multimap *)
+        wf_state st &&
+        list_eqb (fun a b => bytes_eqb (fst a) (fst b) && (snd a =? snd b)) (contents st) sl &&
         match scan_all st with
         | inl l => list_eqb (fun a b => bytes_eqb (fst a) (fst b) && (snd a =? snd b)) l sl
         | inr _ => false
